@@ -108,6 +108,18 @@ pub fn c10(tier: &str, seed: u64, meta: &str) -> Report {
                     let st2 = feed(w, &mut s, &pr.key_events("bhasha", 0), rep, "C10");
                     if let Some((_, l2, s2)) = last_full(&st2) { if l2.get(s2) != Some(&chosen) { rep.fail(describe("after a failed save the learned choice is not even kept in memory", json!({"chosen": chosen, "candidates": l2, "preselected": s2}))); } }
                     feed(w, &mut s, &[SEv::Finish], rep, "C10");
+                    // a second failed save (another word) costs that choice at most: the first one is still known
+                    let st3 = feed(w, &mut s, &pr.key_events("sesh", 0), rep, "C10");
+                    if let Some((_, l3, s3)) = last_full(&st3) {
+                        if l3.len() > 1 {
+                            feed(w, &mut s, &[SEv::Commit((s3 + 1) % l3.len())], rep, "C10");
+                            let st4 = feed(w, &mut s, &pr.key_events("bhasha", 0), rep, "C10");
+                            if let Some((_, l4, s4)) = last_full(&st4) {
+                                if l4.get(s4) != Some(&chosen) { rep.fail(describe("a second failed save (for another word) made the context forget the first learned choice", json!({"first_word": "bhasha", "chosen": chosen, "second_word": "sesh", "candidates": l4, "preselected": s4, "session": s.describe()}))); }
+                            }
+                            feed(w, &mut s, &[SEv::Finish], rep, "C10");
+                        } else { feed(w, &mut s, &[SEv::Finish], rep, "C10"); }
+                    }
                 }
             }
             // the directory appears later (the front-end or the user makes it): the next learning commit is saved, and
@@ -174,11 +186,12 @@ pub fn c11(tier: &str, seed: u64, meta: &str) -> Report {
         // the update
         let upd: SEv = match kind {
             0 | 1 => {
-                let edit = match rng.below(5) {
+                let edit = match rng.below(6) {
                     0 => UacEdit::Keep,
                     1 => UacEdit::Delete,
                     2 => UacEdit::Write(vec![("kkk".into(), "kaka".into()), ("tst".into(), "TesT".into())]), // entry removed
                     3 => UacEdit::Write(vec![("jhal".into(), "jhaal".into()), ("kkk".into(), "kaka".into()), ("ami".into(), "amra".into())]), // changed + added
+                    4 => UacEdit::Raw(b"{\"jhal\": \"jha".to_vec()), // cut off in the middle of a save: an empty list for a new context
                     _ => UacEdit::Write(vec![]),
                 };
                 SEv::Update([2u32, 3, 10, 11, 6, 0][rng.below(6)], edit)
@@ -242,7 +255,7 @@ pub fn c11(tier: &str, seed: u64, meta: &str) -> Report {
         rep.nontrivial_key(&format!("{} {:?}", kind, upd));
         if rep.samples.len() < 2 && i % 101 == 7 { rep.sample(json!({"update": upd.json(), "events": s.history.len()})); }
     });
-    rep.extra.insert("rule".into(), json!("cases = (initial configuration, a history ending idle, update_engine, a continuation): phonetic option flips with user auto-correct edits in between (kept, deleted, entry removed, entries changed/added, emptied; modification times set explicitly, alternately 0.3 s and 10 s apart), phonetic -> fixed, fixed -> phonetic, fixed -> fixed with another layout file (incl. a different file of the same name in another directory, and two files whose names differ in letter case only), fixed option flips (incl. the number-pad option followed by a number-pad key); the continuation is replayed in the updated context and in a context newly created with the new configuration over the same files; both also compared with the extracted model"));
+    rep.extra.insert("rule".into(), json!("cases = (initial configuration, a history ending idle, update_engine, a continuation): phonetic option flips with user auto-correct edits in between (kept, deleted, entry removed, entries changed/added, emptied, cut off in the middle; modification times set explicitly, alternately 0.3 s and 10 s apart), phonetic -> fixed, fixed -> phonetic, fixed -> fixed with another layout file (incl. a different file of the same name in another directory, and two files whose names differ in letter case only), fixed option flips (incl. the number-pad option followed by a number-pad key); the continuation is replayed in the updated context and in a context newly created with the new configuration over the same files; both also compared with the extracted model"));
     rep
 }
 
